@@ -134,3 +134,18 @@ package tracetransform
 //@   assert@store elem#* : $val != nil && $val.Name == es[i].Name && $val.TimeUnixNano == max(0, es[i].Time.UnixNano()) && $val.DroppedAttributesCount == clamp32(es[i].DroppedAttributeCount) && 0 <= i && i < len(es)
 //@   assert@call KeyValues#* : $arg0 === es[i].Attributes
 //@   loop#1 invariant 0 <= i && i <= len(es) && len(events) == len(es) && fresh(events)
+
+// instrumentation scope: absent only for the completely empty scope - a scope that has nothing but attributes is still a scope and
+// keeps them; otherwise name and version are copied and the attributes converted from the scope's own set
+//@ func InstrumentationScope(il instrumentation.Scope) (r *commonpb.InstrumentationScope)
+//@   prop C13
+//@   overflow assumed
+//@   unchecked frame,no-panic fresh protobuf messages are written; the attribute iterator reads reflect-built storage
+//@   ensures r == nil ==> il.Name == "" && il.Version == "" && il.SchemaURL == "" && il.Attributes.equivalent.iface == nil
+//@   ensures r != nil ==> r.Name == il.Name && r.Version == il.Version
+//@   assert@call Set.Iter#1 : $arg0.equivalent == il.Attributes.equivalent
+//@ func Resource(r *resource.Resource) (out *resourcepb.Resource)
+//@   prop C13
+//@   overflow assumed
+//@   unchecked frame,no-panic fresh protobuf messages are written
+//@   assert@call ResourceAttributes#1 : $arg0 == r && r != nil
